@@ -41,18 +41,20 @@ type c01Result struct {
 func evalC01(hist prog.History) (res c01Result) {
 	res.Case = c01Case{History: hist, Step: -1}
 	stmts := 0
-	for _, e := range host.Engines {
-		tr := observe(hist, e, e == host.Interp)
+	// both engines, plus the interpreter with atree/storage validation switched on (small programs only: the
+	// validating run has a tight computation limit, steps that hit it are simply external errors)
+	traces := []Trace{observe(hist, host.Interp, true), observe(hist, host.VM, false), observeValidating(hist, host.Interp)}
+	for ti, tr := range traces {
 		for i, s := range tr.Steps {
-			if e == host.Interp {
+			if ti == 0 {
 				stmts += s.Stmts
 			}
-			res.Outcomes = append(res.Outcomes, e.String()+":"+s.Class)
+			res.Outcomes = append(res.Outcomes, tr.Engine+":"+s.Class)
 			if (s.Class == "internal" || s.Class == "panic") && res.Msg == "" {
 				o := s
-				res.Case.Engine, res.Case.Step, res.Case.Obs = e.String(), i, &o
+				res.Case.Engine, res.Case.Step, res.Case.Obs = strings.TrimSuffix(tr.Engine, "+validation"), i, &o
 				res.Msg = fmt.Sprintf("%s: step %d of a checker-accepted program ended with class=%s root=%s: %s",
-					e, i, s.Class, s.Root, firstLine(s.Err, 500))
+					tr.Engine, i, s.Class, s.Root, firstLine(s.Err, 500))
 			}
 		}
 	}
@@ -84,7 +86,7 @@ func runC01(rec *evid.Rec, hist prog.History, findings []c01Finding) (string, c0
 func TestC01(t *testing.T) {
 	rec := evid.Start(t, "C01",
 		"checker-accepted histories from the registered sources (harvested+mutated cadence test snippets with generated entry points and arguments, "+
-			"grammar programs, other generator libraries) run on interpreter and VM; violation = outcome class internal (errors.InternalError in the chain) or an "+
+			"grammar programs, other generator libraries) run on interpreter and VM (and once more on the interpreter with atree/storage validation on); violation = outcome class internal (errors.InternalError in the chain) or an "+
 			"escaped Go panic; user/external errors are fine. Non-trivial: interpreter executed >= 5 statements and >= 2 core feature classes "+
 			"(resource move, reference, closure, cast, optional chain, interface, condition, attachment, storage, capability); distinct by history text.")
 	findings := c01Findings()
